@@ -2,9 +2,11 @@
 
 * LZW: LZWDecoder.feed is wrapped; one event per code (code, width it was read with, table length after,
   bytes put out).
-* rldecode / apply_png_predictor / apply_tiff_predictor are single functions with a loop inside; their
-  iterations are observed with sys.monitoring LINE events on one anchor line each (located by its source text;
-  if the text is gone the wrapper target is missing -> MachineryError).
+* apply_png_predictor / apply_tiff_predictor are observed at function entry and exit only: the per-row events are
+  the returned bytes cut at the row length of the standard (no assumption about the loops inside).
+* rldecode is a single function with a loop inside; its iterations are observed with a sys.monitoring LINE event
+  on one anchor line when that line exists, otherwise the run events are derived from the result (noted in
+  evidence as a degraded observation) - a rewritten function body must end in a verdict, not in a machinery failure.
 * PDFStream.decode: the decoder names it calls, in order, are recorded by wrapping the names it looks up in
   pdfminer.pdftypes.
 """
@@ -105,8 +107,31 @@ def _line_hook(func, text, on_hit):
         mon.restart_events()
 
 
+DEGRADED = set()      # observations that had to fall back from loop events to results (reported as a note)
+
+
+def _rl_from_result(enc, out):
+    """run events derived from the result alone: walk the encoded data run by run and attribute to each run the
+    slice of the real output it accounts for (None if the output does not have that shape)"""
+    ev = []
+    pos = 0
+    done = 0
+    while pos < len(enc) and enc[pos] != 128:
+        L = enc[pos]
+        o = L + 1 if L < 128 else 257 - L
+        used = L + 2 if L < 128 else 2
+        if pos + used > len(enc) or done + o > len(out):
+            return None
+        ev.append({"L": L, "o": o})
+        pos += used
+        done += o
+    return ev if done == len(out) else None
+
+
 def rl_events(enc):
-    """-> (decoded or None, exc name or None, [ {L, o} per run ])"""
+    """-> (decoded or None, exc name or None, [ {L, o} per run ])
+    The iterations of the loop inside rldecode are observed on one source line when that line exists; when the
+    function has another shape the events are derived from its result (function entry / exit only)."""
     func = _runlength.rldecode
     state = {"seen": 0, "out": 0}
     ev = []
@@ -119,45 +144,54 @@ def rl_events(enc):
         state["seen"] += 1
         state["out"] = n
 
-    with _line_hook(func, "length = next(data_iter", hit):
+    try:
+        hook = _line_hook(func, "length = next(data_iter", hit)
+        hook.__enter__()
+    except MachineryError:
+        hook = None
+        DEGRADED.add("rldecode")
+    try:
         try:
             out = func(enc)
-            return out, None, ev
         except Exception as e:   # noqa: BLE001
             return None, type(e).__name__, ev
+    finally:
+        if hook is not None:
+            hook.__exit__(None, None, None)
+    if hook is None or (not ev and out):
+        if hook is not None:
+            DEGRADED.add("rldecode")
+        ev = _rl_from_result(enc, out) or []
+    return out, None, ev
+
+
+def _rows_from_result(out, enc, rowlen, png):
+    """per scan line what the function returned for it (and, for PNG, the filter type byte of the input row)"""
+    if rowlen <= 0 or len(out) % rowlen:
+        return [{"off": 0, "ty": 0, "raw": list(out)}]
+    step = rowlen + 1 if png else rowlen
+    return [{"off": r * step, "ty": enc[r * step] if png and r * step < len(enc) else 0,
+             "raw": list(out[r * rowlen:(r + 1) * rowlen])} for r in range(len(out) // rowlen)]
 
 
 def png_events(pred, colors, columns, bits, enc):
-    """-> (decoded or None, exc name or None, [ {off, ty, raw} per scan line ])"""
+    """-> (decoded or None, exc name or None, [ {off, ty, raw} per scan line ])
+    observed at function entry / exit: the rows are the result cut at the row length of the standard"""
     func = _utils.apply_png_predictor
-    ev = []
-
-    def hit(fr):
-        loc = fr.f_locals
-        ev.append({"off": loc["scanline_i"], "ty": loc["filter_type"], "raw": list(loc["raw"])})
-
-    with _line_hook(func, "buf.extend(raw)", hit):
-        try:
-            out = func(pred, colors, columns, bits, enc)
-            return out, None, ev
-        except Exception as e:   # noqa: BLE001
-            return None, type(e).__name__, ev
+    try:
+        out = func(pred, colors, columns, bits, enc)
+    except Exception as e:   # noqa: BLE001
+        return None, type(e).__name__, []
+    return out, None, _rows_from_result(out, enc, (colors * columns * bits + 7) // 8, True)
 
 
 def tiff_events(colors, columns, bits, enc):
     func = _utils.apply_tiff_predictor
-    ev = []
-
-    def hit(fr):
-        loc = fr.f_locals
-        ev.append({"off": loc["scanline_i"], "ty": 0, "raw": list(loc["raw"])})
-
-    with _line_hook(func, "buf.extend(raw)", hit):
-        try:
-            out = func(colors, columns, bits, enc)
-            return out, None, ev
-        except Exception as e:   # noqa: BLE001
-            return None, type(e).__name__, ev
+    try:
+        out = func(colors, columns, bits, enc)
+    except Exception as e:   # noqa: BLE001
+        return None, type(e).__name__, []
+    return out, None, _rows_from_result(out, enc, (colors * columns * bits + 7) // 8, False)
 
 
 # ------------------------------------------------------------------------------------------------ PDFStream.decode
